@@ -1183,7 +1183,8 @@ class TypeSystem:
         t = self.get_type(fs.type.name)
         for f in t.all_features:
             if f.rangeType.name == "uima.cas.FSArray":
-                feature_value = fs.value(f.name)
+                # Not `fs.value(...)`: a feature named `value` shadows that method on the instance
+                feature_value = getattr(fs, f.name)
                 if feature_value is None or not feature_value.elements:
                     continue
                 # We check for every element that it is of type `elementType` or a child thereof
